@@ -724,6 +724,11 @@ func VisitWithTypeInfo(ttypeInfo typeInfo.TypeInfoI, visitorOpts *VisitorOptions
 							}
 						}
 					}
+					if action == ActionSkip {
+						// a skipped node is never left, so what entering it
+						// pushed on the type stacks has to come off here
+						ttypeInfo.Leave(node)
+					}
 					return action, result
 				}
 			}
